@@ -75,6 +75,7 @@ class Ctl:
         self.sink = None  # optional: list shared with recording arrays (C04)
         self.columns = False  # record the whole column of period t before/after every seam call (C17)
         self.bus = None  # optional: list shared by several parties, global order of seam calls (C08)
+        self.caller_arrays = []  # (name, array the caller passed to the constructor, pristine copy)
         self.tag = None
 
     def arm(self, plan, bus=None, tag=None):
